@@ -104,6 +104,60 @@ def variants(path):
             yield emit("augment", n, ast.Assign(targets=[n.target], value=ast.BinOp(left=tgt_load, op=n.op, right=n.value), lineno=n.lineno))
         if isinstance(n, ast.UnaryOp) and isinstance(n.op, ast.Not) and isinstance(n.operand, ast.BoolOp) and isinstance(n.operand.op, ast.Or):
             yield emit("demorgan", n, ast.BoolOp(op=ast.And(), values=[ast.UnaryOp(op=ast.Not(), operand=v) for v in n.operand.values]))
+        # --- second generation -------------------------------------------------------------------------------------
+        if isinstance(n, ast.If) and pure(n.test) and not text[seg(n)[0]:seg(n)[0] + 4] == "elif" and isinstance(getattr(n, "parent", None), (ast.FunctionDef, ast.For, ast.While, ast.If)) \
+                and not any(isinstance(x, ast.NamedExpr) for x in ast.walk(n.test)):
+            # tmp = <test>; if tmp: ...
+            tmp = "_cond_%d" % n.lineno
+            new_if = ast.If(test=ast.Name(id=tmp, ctx=ast.Load()), body=n.body, orelse=n.orelse)
+            a, b = seg(n)
+            indent = " " * n.col_offset
+            src_new = "%s = %s\n%s%s" % (tmp, ast.unparse(n.test), indent, ("\n" + indent).join(ast.unparse(new_if).splitlines()))
+            out = text[:a] + src_new + text[b:]
+            try:
+                ast.parse(out)
+                yield ("tmpcond", n.lineno, out)
+            except SyntaxError:
+                pass
+        if isinstance(n, ast.Return) and n.value is not None and not isinstance(n.value, (ast.Name, ast.Constant)):
+            tmp = "_result_%d" % n.lineno
+            a, b = seg(n)
+            indent = " " * n.col_offset
+            out = text[:a] + "%s = %s\n%sreturn %s" % (tmp, ast.unparse(n.value), indent, tmp) + text[b:]
+            try:
+                ast.parse(out)
+                yield ("tmpret", n.lineno, out)
+            except SyntaxError:
+                pass
+        if isinstance(n, ast.Expr) and isinstance(n.value, ast.Call) and isinstance(n.value.func, ast.Attribute) and n.value.func.attr == "append" \
+                and isinstance(n.value.func.value, ast.Name) and len(n.value.args) == 1 and not n.value.keywords:
+            new = ast.AugAssign(target=ast.Name(id=n.value.func.value.id, ctx=ast.Store()), op=ast.Add(), value=ast.List(elts=[n.value.args[0]], ctx=ast.Load()))
+            yield emit("append+=", n, new)
+        if isinstance(n, ast.FunctionDef):
+            # rename one local variable of the function (first plain local that is not a parameter / global / attribute)
+            params = {a.arg for a in n.args.args + n.args.kwonlyargs + n.args.posonlyargs}
+            stores = []
+            for x in ast.walk(n):
+                if isinstance(x, ast.Name) and isinstance(x.ctx, ast.Store) and x.id not in params and not x.id.startswith("_") and x.id not in stores:
+                    stores.append(x.id)
+            nested = any(isinstance(x, (ast.FunctionDef, ast.Lambda, ast.Global, ast.Nonlocal)) for x in ast.walk(n) if x is not n)
+            if stores and not nested:
+                import re as _re
+                a, b = seg(n)
+                body = text[a:b]
+                for old_name in stores[:2]:
+                    new_name = old_name + "_v"
+                    if _re.search(r"\b%s\b" % new_name, body):
+                        continue
+                    # do not touch keyword arguments / attributes / strings of the same spelling
+                    if _re.search(r"[.'\"]%s\b|\b%s\s*=(?!=)[^\n]*\)" % (old_name, old_name), body) and _re.search(r"\(%s=|, %s=|\.%s\b|['\"]%s['\"]" % ((old_name,) * 4), body):
+                        continue
+                    out = text[:a] + _re.sub(r"\b%s\b" % old_name, new_name, body) + text[b:]
+                    try:
+                        ast.parse(out)
+                        yield ("rename:" + old_name, n.lineno, out)
+                    except SyntaxError:
+                        pass
         if isinstance(n, ast.For) and isinstance(n.iter, ast.Call) and isinstance(n.iter.func, ast.Name) and n.iter.func.id == "enumerate" and len(n.iter.args) == 1 \
                 and isinstance(n.target, ast.Tuple) and len(n.target.elts) == 2 and isinstance(n.target.elts[0], ast.Name) and n.target.elts[0].id == "_":
             new = ast.For(target=n.target.elts[1], iter=n.iter.args[0], body=n.body, orelse=n.orelse, lineno=n.lineno)
